@@ -20,12 +20,13 @@ type RenderContext struct {
 	env                *Environment
 	context            map[string]interface{}
 	blocks             map[string][]Node
-	parentBlocks       map[string][]Node // Original block content from parent templates
+	parentBlocks       map[string][]Node // Per block name, the definitions (*BlockNode) along the extends chain, most-derived first
 	macros             map[string]Node
 	parent             *RenderContext
 	engine             *Engine    // Reference to engine for loading templates
 	extending          bool       // Whether this template extends another
 	currentBlock       *BlockNode // Current block being rendered (for parent() function)
+	blockLevel         int        // Index in parentBlocks[currentBlock.name] of the definition being rendered
 	inParentCall       bool       // Flag to indicate if we're currently rendering a parent() call
 	sandboxed          bool       // Flag indicating if this context is sandboxed
 	lastLoadedTemplate *Template  // The template that created this context (for resolving relative paths)
@@ -110,6 +111,7 @@ func NewRenderContext(env *Environment, context map[string]interface{}, engine *
 	ctx.engine = engine
 	ctx.extending = false
 	ctx.currentBlock = nil
+	ctx.blockLevel = 0
 	ctx.parent = nil
 	ctx.inParentCall = false
 	ctx.sandboxed = false
@@ -339,6 +341,7 @@ func (ctx *RenderContext) Clone() *RenderContext {
 	newCtx.engine = ctx.engine
 	newCtx.extending = false
 	newCtx.currentBlock = nil
+	newCtx.blockLevel = 0
 	newCtx.parent = ctx
 	newCtx.inParentCall = false
 
